@@ -1,14 +1,43 @@
 """C04 bounded stand-in (clause f + e/d end-to-end): after `obj.` every attribute the run-time object really has that
 is defined in the analysed source is offered; every completion extends the fragment, (name, complete) pairs are
-unique, the list is in the documented order."""
+unique, the list is in the documented order.
+
+Three scenario families (all checked with the same completion algebra):
+  H  exhaustive small class hierarchies, receiver = instance of the last class (the original enumeration)
+  P  seeded random multi-file executable projects (modules, packages, star-import chains, aliases, classes with
+     many kinds of attribute definitions); receivers = instances / modules (/ classes when typeshed is present) reached
+     through several kinds of expressions; oracle = a child interpreter that runs the program and applies hasattr()
+  S  cursor sweep: sampled cursor positions of every syntactic category (tokenize) in generated sources, a generated
+     'syntax zoo' and corpus files of the tree under test, whole file and file cut at the cursor, fuzzy and non-fuzzy;
+     oracle for the fragment = Python's own tokenizer
+"""
+import builtins
+import io
 import itertools
+import json
+import keyword
 import multiprocessing as mp
 import os
+import random
+import subprocess
+import sys
+import tokenize
 import traceback
+import unicodedata
 
 CLASSES = ['A', 'B', 'C', 'D', 'E']
 
+L_RAISED = 'complete raised'
+L_MISSING = 'attribute of the run-time object defined in the source is not offered'
+L_EXTEND = 'completion does not extend the fragment'
+L_ALGEBRA = 'complete/prefix length inconsistent'
+L_DUP = 'duplicate (name, complete) pair'
+L_ORDER = 'completions are not in the documented order'
+L_FUZZY = 'fuzzy completion is not a subsequence match or has a complete'
+L_DUNDER_PARAM = 'a parameter named __x is completed as x: the completion does not extend the fragment'
 
+
+# ------------------------------------------------------------------------------------------------ family H
 def hierarchies(n):
     """all class DAGs over the first n class names where class i has 0..2 bases among earlier classes, in MRO-legal
     orders only (checked by executing)"""
@@ -23,6 +52,18 @@ def hierarchies(n):
     for combo in itertools.product(*choices):
         out.append(list(zip(names, combo)))
     return out
+
+
+def connected(h):
+    """every class is the last class or one of its ancestors"""
+    bases = dict(h)
+    seen, todo = set(), [h[-1][0]]
+    while todo:
+        c = todo.pop()
+        if c not in seen:
+            seen.add(c)
+            todo += bases[c]
+    return len(seen) == len(h)
 
 
 def render(h, style):
@@ -56,12 +97,108 @@ def render(h, style):
     return '\n'.join(lines) + '\n'
 
 
+# ------------------------------------------------------------------------------------- the completion algebra
 def doc_key(name, fragment):
     return (not name.startswith(fragment), name.startswith('__'), name.startswith('_'), name.lower())
 
 
-def check_case(case):
+def is_subsequence(fragment, name):
+    it = iter(name)
+    return all(ch in it for ch in fragment)
+
+
+def matches(name, fragment, fuzzy, ci):
+    """the match predicate of the property statement"""
+    if ci:
+        name, fragment = name.lower(), fragment.lower()
+    return is_subsequence(fragment, name) if fuzzy else name.startswith(fragment)
+
+
+def check_completions(comps, fragment, fuzzy, ci, where, kind):
+    """clauses a-e of the property on one returned list; `where` is the reported input, `kind` the kind of input"""
+    viol = []
+
+    def add(label, observed):
+        viol.append({'label': label, 'input': where, 'observed': observed, 'kind': kind})
+
+    rows = comps          # (name, complete, name_with_symbols, prefix length)
+    for name, complete, nws, plen in rows:
+        if not matches(name, fragment, fuzzy, ci):
+            # (ParamName.get_public_name strips a leading '__'; reported under its own label to keep triage simple)
+            add(L_DUNDER_PARAM if fragment.startswith('_') and matches('__' + name, fragment, fuzzy, ci)
+                else L_FUZZY if fuzzy else L_EXTEND, name)
+        elif plen != len(fragment):
+            add(L_ALGEBRA, repr((name, complete, plen)))
+        elif fuzzy:
+            if complete is not None:
+                add(L_FUZZY, repr((name, complete, plen)))
+        elif not nws.startswith(name):
+            add(L_ALGEBRA, repr((name, complete, nws, plen)))
+        elif ci and not (len(name) >= len(fragment) and all(a.lower() == b.lower() for a, b in zip(name, fragment))):
+            # lower() changes the length ('\u0130' -> 'i\u0307'): the fragment matches, but not character by character,
+            # 'the missing suffix' has no position to start at; not checked
+            pass
+        elif complete != nws[len(fragment):]:
+            add(L_ALGEBRA, repr((name, complete, nws, plen)))
+    pairs = [(r[0], r[1]) for r in rows]
+    if len(set(pairs)) != len(pairs):
+        add(L_DUP, repr(sorted({p for p in pairs if pairs.count(p) > 1})[:3]))
+    keys = [doc_key(r[0], fragment) for r in rows]
+    if keys != sorted(keys):          # names with the same key (value/Value) may come in either order
+        i = next(i for i in range(len(keys) - 1) if keys[i] > keys[i + 1])
+        add(L_ORDER, repr([r[0] for r in rows[max(0, i - 3):i + 4]]))
+    return viol
+
+
+class _Settings:
+    """jedi.settings for one evaluation: case_insensitive_completion, add_bracket_after_function"""
+    def __init__(self, ci, bracket):
+        self.new = {'case_insensitive_completion': ci, 'add_bracket_after_function': bracket}
+
+    def __enter__(self):
+        import jedi
+        self.old = {k: getattr(jedi.settings, k) for k in self.new}
+        for k, v in self.new.items():
+            setattr(jedi.settings, k, v)
+
+    def __exit__(self, *a):
+        import jedi
+        for k, v in self.old.items():
+            setattr(jedi.settings, k, v)
+
+
+def jedi_complete(code, line, col, fuzzy, path=None, project=None, ci=True, bracket=False):
+    """-> (rows (name, complete, name_with_symbols, prefix length) | None when jedi hit the recursion limit or raised,
+    traceback | None); the rows are read while the settings are in force"""
     import jedi
+    with _Settings(ci, bracket):
+        try:
+            comps = jedi.Script(code, path=path, project=project).complete(line, col, fuzzy=fuzzy)
+            return [(c.name, c.complete, c.name_with_symbols, c.get_completion_prefix_length()) for c in comps], None
+        except RecursionError:
+            return None, None
+        except Exception as e:
+            last = traceback.extract_tb(e.__traceback__)[-1]
+            fname = last.filename.replace(os.sep, '/')
+            if not _WORK.get('typeshed', True) and (
+                    # sandbox artefacts of an empty typeshed: `type` is a compiled class and ClassMixin.get_filters
+                    # asserts for every class receiver (A., cls., signatures of A( ...); types.MethodType /
+                    # types.ModuleType do not resolve (`c, = values_from_qualified_names(...)` for `obj.method.`)
+                    isinstance(e, AssertionError) and last.name == 'get_filters'
+                    and fname.endswith('jedi/inference/value/klass.py')
+                    or isinstance(e, ValueError) and last.name == 'py__class__' and '/jedi/inference/value/' in fname
+                    and 'values_from_qualified_names' in (last.line or '')):
+                _WORK['artefacts'] = _WORK.get('artefacts', 0) + 1
+                return None, None
+            return None, ''.join(traceback.format_exception(e)[-5:])
+
+
+def end_pos(code):
+    lines = code.split('\n')
+    return len(lines), len(lines[-1])
+
+
+def check_case_h(case):
     h, style = case
     src = render(h, style)
     ns = {}
@@ -73,71 +210,944 @@ def check_case(case):
     defined = {n for n in dir(obj) if n.split('_')[0] in ('cattr', 'meth', 'iattr', 'sattr', 'kattr', 'setup', 'conf')}
     viol = []
     n_eval = 0
-    for fragment in ('', 'me', 'Ca'):
+    for fragment, fuzzy in (('', False), ('me', False), ('Ca', False), ('tr', True)):
         code = src + 'obj.' + fragment
         n_eval += 1
-        try:
-            comps = jedi.Script(code).complete()
-        except RecursionError:
+        comps, exc = jedi_complete(code, *end_pos(code), fuzzy)
+        if exc:
+            viol.append({'label': L_RAISED, 'input': repr(code[-80:]), 'observed': exc, 'kind': 'H'})
+        if comps is None:
             continue
-        except Exception:
-            viol.append({'label': 'complete raised', 'input': repr(code[-80:]), 'observed': traceback.format_exc(limit=3)})
-            continue
-        names = [c.name for c in comps]
-        want = {n for n in defined if n.lower().startswith(fragment.lower())}
+        names = [c[0] for c in comps]
+        want = {n for n in defined if matches(n, fragment, fuzzy, True)}
         if want - set(names):
-            viol.append({'label': 'attribute of the run-time object defined in the source is not offered',
+            viol.append({'label': L_MISSING,
                          'input': repr({'classes': h, 'style': style, 'fragment': fragment}),
-                         'observed': 'missing %r' % sorted(want - set(names))})
-        for c in comps:
-            if not c.name.lower().startswith(fragment.lower()):
-                viol.append({'label': 'completion does not extend the fragment', 'input': repr(code[-60:]),
-                             'observed': c.name})
-            elif c.name[:c.get_completion_prefix_length()] + (c.complete or '') != c.name_with_symbols \
-                    or c.get_completion_prefix_length() != len(fragment):
-                viol.append({'label': 'complete/prefix length inconsistent', 'input': repr(code[-60:]),
-                             'observed': repr((c.name, c.complete, c.get_completion_prefix_length()))})
-        pairs = [(c.name, c.complete) for c in comps]
-        if len(set(pairs)) != len(pairs):
-            viol.append({'label': 'duplicate (name, complete) pair', 'input': repr(code[-60:]),
-                         'observed': repr([p for p in pairs if pairs.count(p) > 1][:3])})
-        if names != sorted(names, key=lambda n: doc_key(n, fragment)):
-            viol.append({'label': 'completions are not in the documented order', 'input': repr(code[-60:]),
-                         'observed': repr(names[:8])})
+                         'observed': 'missing %r' % sorted(want - set(names)), 'kind': 'H'})
+        viol += check_completions(comps, fragment, fuzzy, True, repr(code[-60:]), 'H')
     return n_eval, viol
 
 
-def _init_worker():
+# ------------------------------------------------------------------------------------------------ family P
+KEYWORDISH = ['not', 'for', 'is', 'in', 'or', 'and', 'if', 'else', 'def', 'del', 'class', 'pass', 'import', 'lambda',
+              'try', 'none', 'true', 'false', 'with', 'as', 'from', 'return', 'yield', 'while', 'elif', 'raise', 'assert',
+              'global', 'await', 'async', 'except', 'finally', 'break', 'continue', 'nonlocal']
+PLAIN = ['val', 'value', 'valid', 'vx', 'x', 'xa', 'name', 'node', 'ab', 'abba', 'b', 'item', 'items', 'aa', 'ünit',
+         'İx', 'straße', 'data', 'dat']
+TAILS = ['_x', 'ed', '_val', 'mat', 'ify', 'k', '2', 'a', '_', 'x_y']
+
+
+class Names:
+    """seeded identifier factory; the pool is the set of all identifiers the generated sources define"""
+    def __init__(self, rnd):
+        self.rnd = rnd
+        self.pool = set()
+        self.reserved = set()
+
+    def _ok(self, n):
+        return (n.isidentifier() and not keyword.iskeyword(n) and not hasattr(builtins, n)
+                and unicodedata.normalize('NFKC', n) == n and n not in ('self', 'this', 'cls', 'match', 'case', 'type')
+                and not n.startswith('zq'))
+
+    def _draw(self):
+        rnd = self.rnd
+        while True:
+            if rnd.random() < 0.45:
+                stem = rnd.choice(KEYWORDISH) + rnd.choice(TAILS)
+            else:
+                stem = rnd.choice(PLAIN) + (rnd.choice(TAILS) if rnd.random() < 0.5 else '')
+            stem = rnd.choice([stem, stem, stem.capitalize(), stem.upper(), stem.title()])
+            r = rnd.random()
+            n = stem if r < 0.62 else '_' + stem if r < 0.82 else '__' + stem if r < 0.9 else '__%s__' % stem
+            if self._ok(n):
+                return n
+
+    def twin(self, n):
+        """a different identifier with the same lower-case form, or None"""
+        for t in self.rnd.sample([n.upper(), n.capitalize(), n.lower(), n.swapcase(), n.title()], 5):
+            if t != n and t.lower() == n.lower() and self._ok(t):
+                return t
+        return None
+
+    def any(self, scope=()):
+        """an identifier for a class-level / instance-level definition: new, a re-used one (overriding), or the
+        case twin of a name already in the scope"""
+        rnd = self.rnd
+        r = rnd.random()
+        n = None
+        if scope and r < 0.25:
+            n = self.twin(rnd.choice(sorted(scope)))
+        elif r < 0.4:
+            cands = sorted(self.pool - self.reserved)
+            if cands:
+                n = rnd.choice(cands)
+        if n is None or n in self.reserved:
+            n = self._draw()
+            while n in self.reserved:
+                n = self._draw()
+        self.pool.add(n)
+        return n
+
+    def uniq(self, twin_of=None, public=False):
+        """an identifier never handed out before (module-level names, methods the program calls)"""
+        n = None
+        if twin_of:
+            n = self.twin(twin_of)
+        while n is None or n in self.pool or (public and n.startswith('_')):
+            n = self._draw()
+        self.pool.add(n)
+        self.reserved.add(n)
+        return n
+
+
+class Mod:
+    def __init__(self, dotted, relpath, pkg):
+        self.dotted, self.relpath, self.pkg = dotted, relpath, pkg
+        self.lines = []
+        self.own = []          # own module-level public+private names in definition order: (name, kind, info)
+        self.ns = {}           # simple name -> (kind, info) for everything bound in the namespace
+        self.all = None        # __all__ or None
+        self.self_points = []  # (line index, indent, selfname, class name)
+
+    def bind(self, name, kind, info, own=True):
+        self.ns[name] = (kind, info)
+        if own:
+            self.own.append((name, kind, info))
+
+    def exprs(self, kind):
+        return sorted(n for n, (k, _) in self.ns.items() if k == kind)
+
+    def star_exports(self):
+        if self.all is not None:
+            return {n: v for n, v in self.ns.items() if n in self.all}
+        return {n: v for n, v in self.ns.items() if not n.startswith('_')}
+
+
+def c3(name, bases):
+    """the C3 linearisation of a class with the given base infos, None when there is none"""
+    seqs = [list(b['mro']) for b in bases] + [[b['name'] for b in bases]]
+    out = [name]
+    while True:
+        seqs = [q for q in seqs if q]
+        if not seqs:
+            return out
+        for q in seqs:
+            head = q[0]
+            if not any(head in r[1:] for r in seqs):
+                break
+        else:
+            return None
+        out.append(head)
+        for q in seqs:
+            if q[0] == head:
+                del q[0]
+
+
+def gen_class(rnd, g, mod, cname, meta_ok):
+    """append a class definition to mod.lines; bases are class expressions available in the module"""
+    avail = []
+    infos = {}
+    for n, (k, info) in sorted(mod.ns.items()):
+        if k == 'class':
+            avail.append(n)
+            infos[n] = info
+        elif k == 'module':
+            for c in info['classes']:
+                avail.append('%s.%s' % (n, c))
+                infos[avail[-1]] = info['mod'].ns[c][1]
+    bases, mro = [], [cname]
+    for _ in range(6):          # a base list Python accepts (C3 linearisation exists, one metaclass)
+        cand = rnd.sample(avail, min(len(avail), rnd.choice([0, 1, 1, 1, 2, 2, 3])))
+        lin = c3(cname, [infos[b] for b in cand])
+        if lin is not None and len({infos[b]['meta'] for b in cand} - {None}) <= 1:
+            bases, mro = cand, lin
+            break
+    meta = ({infos[b]['meta'] for b in bases} - {None} or {None}).pop()
+    # identifiers __x are mangled inside a class body: only unmangled expressions may be used there
+    inside = [a for a in avail if not any(p.startswith('__') and not p.endswith('__') for p in a.split('.'))]
+    head = ', '.join(bases)
+    if not bases and rnd.random() < (0.5 if meta_ok else 0.15):
+        mname = g.uniq()
+        mod.lines += ['class %s(type):' % mname, '    %s = 1' % g.any(), '    def %s(cls): return 1' % g.any(), '']
+        mod.bind(mname, 'metaclass', None)
+        head = 'metaclass=' + mname
+        meta = mname
+    out = mod.lines
+    out.append('class %s(%s):' % (cname, head) if head else 'class %s:' % cname)
+    scope = set()
+
+    def nm():
+        n = g.any(scope)
+        scope.add(n)
+        return n
+
+    selfname = rnd.choice(['self', 'self', 'self', 'this'])
+    calls = []
+    kinds = rnd.sample(['cattr', 'cattr', 'ann', 'tuple', 'meth', 'meth', 'static', 'clsm', 'prop', 'nested', 'cond',
+                        'init', 'init', 'setup', 'closure', 'loop', 'try', 'chain'], rnd.randint(2, 7))
+    for kind in kinds:
+        if kind == 'cattr':
+            out.append('    %s = 1' % nm())
+        elif kind == 'ann':
+            out.append('    %s: int = 2' % nm())
+            if rnd.random() < 0.3:
+                out.append('    %s: int' % g.any())       # a bare annotation defines nothing at run time
+        elif kind == 'tuple':
+            out.append('    %s, (%s, %s) = 1, (2, 3)' % (nm(), nm(), nm()))
+        elif kind == 'chain':
+            out.append('    %s = %s = 4' % (nm(), nm()))
+        elif kind == 'meth':
+            out.append('    def %s(%s):' % (nm(), selfname))
+            mod.self_points.append((len(out), '        ', selfname, cname))
+            out.append('        return 1')
+        elif kind == 'static':
+            out += ['    @staticmethod', '    def %s(): return 1' % nm()]
+        elif kind == 'clsm':
+            out += ['    @classmethod', '    def %s(cls): return 1' % nm()]
+        elif kind == 'prop':
+            # never re-used: assigning self.<p> would fail for a property without setter
+            p = g.uniq(twin_of=rnd.choice(sorted(scope)) if scope and rnd.random() < 0.3 else None)
+            scope.add(p)
+            out += ['    @property', '    def %s(%s): return 1' % (p, selfname)]
+            if rnd.random() < 0.4:
+                out += ['    @%s.setter' % p, '    def %s(%s, v): pass' % (p, selfname)]
+        elif kind == 'nested':
+            out += ['    class %s:' % nm(), '        %s = 1' % g.any()]
+        elif kind == 'cond':
+            out += ['    if 1:', '        %s = 1' % nm(), '    else:', '        %s = 2' % g.any()]
+        elif kind == 'loop':
+            out += ['    for %s in (1, 2):' % nm(), '        %s = 3' % nm()]
+        elif kind == 'try':
+            out += ['    try:', '        %s = 1' % nm(), '    except Exception:', '        %s = 2' % g.any(),
+                    '    finally:', '        %s = 3' % nm()]
+        elif kind == 'init' and '__init__' not in scope:
+            scope.add('__init__')
+            out.append('    def __init__(%s):' % selfname)
+            style = rnd.choice(['super', 'super', 'explicit', 'none'])
+            if bases and style == 'super':
+                out.append('        super().__init__()')
+            elif bases and style == 'explicit' and bases[0] in inside:
+                out.append('        %s.__init__(%s)' % (bases[0], selfname))
+            for form in rnd.sample(['plain', 'plain', 'ann', 'tuple', 'for', 'cond', 'child', 'closure', 'walrus',
+                                    'try', 'with'], rnd.randint(1, 4)):
+                s = selfname
+                if form == 'plain':
+                    out.append('        %s.%s = 1' % (s, nm()))
+                elif form == 'ann':
+                    out.append('        %s.%s: int = 1' % (s, nm()))
+                elif form == 'tuple':
+                    out.append('        %s.%s, %s.%s = 1, 2' % (s, nm(), s, nm()))
+                elif form == 'for':
+                    out += ['        for %s.%s in (1, 2):' % (s, nm()), '            pass']
+                elif form == 'cond':
+                    out += ['        if 1:', '            %s.%s = 1' % (s, nm()), '        else:',
+                            '            %s.%s = 2' % (s, g.any())]
+                elif form == 'try':
+                    out += ['        try:', '            %s.%s = 1' % (s, nm()), '        finally:',
+                            '            %s.%s = 2' % (s, nm())]
+                elif form == 'walrus':
+                    out.append('        %s.%s = (%s := 5)' % (s, nm(), 'zq_tmp'))
+                elif form == 'with':
+                    out += ['        with zq_ctx() as %s.%s:' % (s, nm()), '            pass']
+                elif form == 'child' and inside:
+                    out.append('        %s.%s = %s()' % (s, nm(), rnd.choice(inside)))
+                elif form == 'closure':
+                    out += ['        def zq_cb():', '            %s.%s = 1' % (s, nm()), '        zq_cb()']
+            if out[-1].startswith('    def __init__'):
+                out.append('        pass')
+        elif kind == 'setup':
+            m = g.uniq()
+            calls.append(m)
+            out += ['    def %s(%s, zq_arg=0):' % (m, selfname), '        %s.%s = 1' % (selfname, nm()),
+                    '        %s.%s = %s.%s = 2' % (selfname, nm(), selfname, nm())]
+        elif kind == 'closure':
+            m = g.uniq()
+            calls.append(m)
+            out += ['    def %s(%s):' % (m, selfname), '        def zq_inner(zq_r):',
+                    '            %s.%s = zq_r' % (selfname, nm()),
+                    '            class zq_K:', '                def zq_m(zq_s): %s.%s = 1' % (selfname, nm()),
+                    '            zq_K().zq_m()', '        zq_inner(1)']
+    if out[-1].startswith('class '):
+        out.append('    pass')
+    out.append('')
+    return {'calls': calls, 'name': cname, 'mro': mro, 'meta': meta}
+
+
+CTX = ['class zq_ctx:', '    def __enter__(self): return 1', '    def __exit__(self, *a): return False', '']
+
+
+def gen_module(rnd, g, mod, earlier, is_main, typeshed):
+    out = mod.lines
+    out += CTX
+    # ---- imports
+    k = min(len(earlier), rnd.randint(1, 3) if is_main else rnd.randint(0, 2))
+    for e in rnd.sample(earlier, k):
+        forms = ['import', 'import_as', 'star', 'star', 'from']
+        if e.pkg:
+            forms += ['from_pkg', 'from_pkg_as']
+            if mod.pkg == e.pkg and mod.dotted != e.pkg:
+                forms += ['rel_mod', 'rel_star', 'rel_from'] * 2
+        if e.relpath.endswith('__init__.py'):
+            forms = ['import', 'import_as', 'star', 'from']
+        if mod.relpath.endswith('__init__.py') and e.pkg == mod.dotted:
+            forms = ['rel_mod', 'rel_star', 'rel_from', 'star', 'from']
+        form = rnd.choice(forms)
+        last = e.dotted.split('.')[-1]
+        minfo = {'mod': e, 'classes': [n for n, kd, _ in e.own if kd == 'class'],
+                 'insts': [n for n, kd, _ in e.own if kd == 'inst']}
+        own_names = [n for n, _, _ in e.own]
+        pick = rnd.sample(own_names, min(len(own_names), rnd.randint(1, 3)))
+        if form == 'import':
+            out.append('import ' + e.dotted)
+            mod.bind(e.dotted, 'module', minfo, own=False)          # a sub-module is reached as pk.sub
+            for pk in earlier:
+                if '.' in e.dotted and pk.dotted == e.pkg:          # ... and binds the package itself
+                    mod.bind(pk.dotted, 'module', {'mod': pk, 'classes': [n for n, kd, _ in pk.own if kd == 'class'],
+                                                   'insts': [n for n, kd, _ in pk.own if kd == 'inst']}, own=False)
+        elif form == 'import_as':
+            al = g.uniq()
+            out.append('import %s as %s' % (e.dotted, al))
+            mod.bind(al, 'module', minfo)
+        elif form in ('star', 'rel_star'):
+            out.append('from %s import *' % (e.dotted if form == 'star' else '.' + last))
+            for n, v in sorted(e.star_exports().items()):
+                mod.bind(n, v[0], v[1], own=False)
+        elif form in ('from', 'rel_from') and pick:
+            parts = []
+            for n in pick:
+                if rnd.random() < 0.35:
+                    al = g.uniq()
+                    parts.append('%s as %s' % (n, al))
+                    mod.bind(al, e.ns[n][0], e.ns[n][1])
+                else:
+                    parts.append(n)
+                    mod.bind(n, e.ns[n][0], e.ns[n][1], own=False)
+            src = e.dotted if form == 'from' else '.' + last
+            out.append('from %s import %s' % (src, ', '.join(parts)) if rnd.random() < 0.7 else
+                       'from %s import (%s)' % (src, ', '.join(parts)))
+        elif form in ('from_pkg', 'from_pkg_as', 'rel_mod'):
+            src = e.pkg if form != 'rel_mod' else '.'
+            if form == 'from_pkg_as':
+                al = g.uniq()
+                out.append('from %s import %s as %s' % (src, last, al))
+                mod.bind(al, 'module', minfo)
+            else:
+                out.append('from %s import %s' % (src, last))
+                mod.bind(last, 'module', minfo, own=False)
+    out.append('')
+    # ---- definitions
+    plan = ['class'] * rnd.randint(1, 5 if is_main else 3) + ['func'] * rnd.randint(0, 2) + ['var'] * rnd.randint(1, 4)
+    rnd.shuffle(plan)
+    classes = []
+    for what in plan:
+        own_public = [n for n, _, _ in mod.own if not n.startswith('_')]
+        tw = rnd.choice(own_public) if own_public and rnd.random() < 0.3 else None
+        if what == 'class':
+            cname = g.uniq(twin_of=tw, public=rnd.random() < 0.8)
+            info = gen_class(rnd, g, mod, cname, typeshed)
+            mod.bind(cname, 'class', info)
+            classes.append(cname)
+        elif what == 'func':
+            f = g.uniq(twin_of=tw)
+            p1, p2 = g.any(), g.any()
+            while p2 == p1:
+                p2 = g.any()
+            out += ['def %s(%s=1, *, %s=2):' % (f, p1, p2), '    %s = 3' % g.any(), '    return 1', '']
+            mod.bind(f, 'func', None)
+        else:
+            form = rnd.choice(['plain', 'plain', 'ann', 'tuple', 'chain', 'cond', 'try', 'for', 'global', 'walrus',
+                               'with', 'del', 'aug'])
+            v = g.uniq(twin_of=tw)
+            mod.bind(v, 'var', None)
+            if form == 'plain':
+                out.append('%s = 1' % v)
+            elif form == 'ann':
+                out.append('%s: int = 1' % v)
+            elif form == 'tuple':
+                w = g.uniq()
+                mod.bind(w, 'var', None)
+                out.append('%s, [%s] = 1, [2]' % (v, w))
+            elif form == 'chain':
+                w = g.uniq()
+                mod.bind(w, 'var', None)
+                out.append('%s = %s = 1' % (v, w))
+            elif form == 'cond':
+                out += ['if 1:', '    %s = 1' % v, 'else:', '    %s = 2' % g.uniq()]
+            elif form == 'try':
+                out += ['try:', '    %s = 1' % v, 'except Exception:', '    %s = 2' % g.uniq()]
+            elif form == 'for':
+                out += ['for %s in (1, 2):' % v, '    pass']
+            elif form == 'global':
+                out += ['def zq_set():', '    global %s' % v, '    %s = 1' % v, 'zq_set()']
+            elif form == 'walrus':
+                out.append('zq_w = (%s := 1)' % v)
+            elif form == 'with':
+                out += ['with zq_ctx() as %s:' % v, '    pass']
+            elif form == 'aug':
+                out += ['%s = 1' % v, '%s += 1' % v]
+            elif form == 'del':
+                w = g.uniq()
+                out += ['%s = 1' % v, '%s = 2' % w, 'del %s' % w]
+        out.append('')
+    # ---- instances
+    cls_exprs = mod.exprs('class')
+    for m_name, (kd, info) in sorted(mod.ns.items()):
+        if kd == 'module':
+            cls_exprs += ['%s.%s' % (m_name, c) for c in info['classes']]
+    for ce in rnd.sample(cls_exprs, min(len(cls_exprs), rnd.randint(1, 3))):
+        v = g.uniq()
+        out.append('%s = %s()' % (v, ce))
+        mod.bind(v, 'inst', {'cls': ce})
+    if cls_exprs and rnd.random() < 0.6:
+        f = g.uniq()
+        out += ['def %s():' % f, '    return %s()' % rnd.choice(cls_exprs), '']
+        mod.bind(f, 'factory', None)
+    if not is_main and rnd.random() < 0.25:
+        pub = [n for n, _, _ in mod.own if not n.startswith('__')]
+        mod.all = sorted(rnd.sample(pub, max(1, len(pub) * 2 // 3)))
+        out.append('__all__ = %r' % mod.all)
+    return classes
+
+
+def gen_project(rnd, typeshed):
+    """-> dict(files, main_rel, pool, receivers, self_points)"""
+    g = Names(rnd)
+    mods = []
+    layout = rnd.choice(['flat', 'flat', 'pkg', 'mixed', 'single'])
+    plan = []
+    if layout in ('flat', 'mixed'):
+        for i in range(rnd.randint(1, 3)):
+            n = 'zqm%d_%s' % (i, rnd.choice(['val', 'not', 'for', 'Imp', 'x']))
+            plan.append((n, n + '.py', None))
+    if layout in ('pkg', 'mixed'):
+        pk = 'zqpk_' + rnd.choice(['val', 'is', 'x'])
+        subs = ['zqs%d_%s' % (i, rnd.choice(['val', 'in', 'x'])) for i in range(rnd.randint(1, 3))]
+        for s in subs:
+            plan.append(('%s.%s' % (pk, s), '%s/%s.py' % (pk, s), pk))
+        plan.append((pk, pk + '/__init__.py', pk))
+    setups = []
+    for dotted, rel, pkg in plan:
+        m = Mod(dotted, rel, pkg)
+        for c in gen_module(rnd, g, m, list(mods), False, typeshed):
+            setups += m.ns[c][1]['calls']
+        mods.append(m)
+    main = Mod('zq_main', 'zq_main.py', None)
+    for c in gen_module(rnd, g, main, list(mods), True, typeshed):
+        setups += main.ns[c][1]['calls']
+    # call the setup / closure methods on every instance reachable by a simple name in main
+    insts = main.exprs('inst')
+    main.lines += ['zq_setups = %r' % sorted(setups),
+                   'for zq_o in [%s]:' % ', '.join(insts),
+                   '    for zq_n in zq_setups:',
+                   '        if hasattr(zq_o, zq_n): getattr(zq_o, zq_n)()', '']
+    receivers = []      # (expr, wanted kind)
+    for n in insts:
+        receivers.append(n)
+    for n in main.exprs('factory'):
+        receivers.append(n + '()')
+    for n in main.exprs('class'):
+        receivers.append(n + '()')
+        if typeshed:
+            receivers.append(n)
+    for n, (k, info) in sorted(main.ns.items()):
+        if k == 'module':
+            receivers.append(n)
+            for i in info['insts']:
+                receivers.append('%s.%s' % (n, i))
+            for c in info['classes']:
+                receivers.append('%s.%s()' % (n, c))
+    wrapped = []
+    for r in receivers:
+        w = rnd.random()
+        wrapped.append(r if w < 0.7 else '(%s)' % r if w < 0.85 else '[%s][0]' % r if w < 0.93 else '(%s, 1)[0]' % r)
+    files = {m.relpath: '\n'.join(m.lines) + '\n' for m in mods + [main]}
+    # sub-modules are attributes of their package once imported: their names belong to the pool as well
+    pool = sorted(g.pool | {m.dotted.split('.')[-1] for m in mods})
+    return {'files': files, 'main_rel': main.relpath, 'pool': pool, 'receivers': wrapped,
+            'self_points': main.self_points, 'layout': layout}
+
+
+ORACLE = r'''
+import sys, json, runpy, inspect
+proj, main, pool, exprs, classes = json.loads(sys.stdin.read())
+sys.path.insert(0, proj)
+sys.dont_write_bytecode = True
+try:
+    ns = runpy.run_path(main, run_name='zq_main')
+except TypeError as e:
+    print(json.dumps({'not_a_program': repr(e)}))
+    sys.exit(0)
+def has(o, n):
+    try:
+        getattr(o, n)
+        return True
+    except AttributeError:
+        return n in dir(o)
+out = {}
+for e in exprs + [c + '()' for c in classes]:
+    o = eval(e, ns)
+    kind = 'module' if inspect.ismodule(o) else 'class' if inspect.isclass(o) else 'instance'
+    out[e] = [kind, sorted(n for n in pool if has(o, n))]
+print(json.dumps({'ok': out}))
+'''
+
+
+def run_oracle(proj_dir, main_path, pool, exprs, classes):
+    p = subprocess.run([sys.executable, '-S', '-c', ORACLE], input=json.dumps([proj_dir, main_path, pool, exprs, classes]),
+                       capture_output=True, text=True, timeout=120,
+                       env={k: v for k, v in os.environ.items() if k not in ('PYTHONPATH', 'JEDI_REPO')})
+    if p.returncode != 0:
+        raise RuntimeError('oracle process failed on %s: %s' % (proj_dir, p.stderr[-1500:]))
+    return json.loads(p.stdout.strip().splitlines()[-1])
+
+
+def case_variants(rnd, s):
+    return rnd.choice([s, s, s.lower(), s.upper(), s.swapcase()])
+
+
+def fragments_for(rnd, expected, n_prefix):
+    """[(fragment, fuzzy)] derived from the names the run-time object has"""
+    out = [('', False)]
+    if rnd.random() < 0.25:
+        out.append(('', True))
+    names = sorted(expected)
+    for n in rnd.sample(names, min(len(names), n_prefix)):
+        pre = case_variants(rnd, n[:rnd.randint(1, len(n))])
+        out.append((pre, rnd.random() < 0.25))
+    if names:
+        n = rnd.choice(names)
+        k = min(len(n), rnd.randint(2, 4))
+        idx = sorted(rnd.sample(range(len(n)), k))
+        sub = ''.join(n[i] for i in idx)
+        out.append((case_variants(rnd, sub), True))
+        # near misses: a character doubled / the order reversed; whatever is returned must still match
+        j = rnd.randrange(len(sub))
+        out.append((sub[:j] + sub[j] + sub[j:], True))
+        if rnd.random() < 0.5:
+            out.append((sub[::-1], True))
+    seen, res = set(), []
+    for f in out:
+        if f not in seen and (f[0] == '' or f[0].isidentifier()):     # what a user can type as an identifier
+            seen.add(f)
+            res.append(f)
+    return res
+
+
+def defined_at(files, names):
+    """where the sources bind the names (a hint for the reader of a violation)"""
+    import re
+    out = []
+    for n in names:
+        for rel in sorted(files):
+            hits = [(i + 1, ln.strip()) for i, ln in enumerate(files[rel].split('\n'))
+                    if re.search(r'(?<!\w)%s(?!\w)' % re.escape(n), ln)]
+            out += ['%s:%d: %s' % (rel, i, ln) for i, ln in hits[:2]]
+    return out[:6]
+
+
+def check_case_p(case):
+    import jedi
+    idx, seed, tier, typeshed = case
+    rnd = random.Random('C04-P-%d-%d' % (seed, idx))
+    proj = gen_project(rnd, typeshed)
+    d = os.path.join(_WORK['dir'], 'p%d' % idx)
+    for rel, src in proj['files'].items():
+        os.makedirs(os.path.dirname(os.path.join(d, rel)), exist_ok=True)
+        with open(os.path.join(d, rel), 'w', encoding='utf-8') as f:
+            f.write(src)
+    main_path = os.path.join(d, proj['main_rel'])
+    main_src = proj['files'][proj['main_rel']]
+    self_classes = sorted({sp[3] for sp in proj['self_points']})
+    res = run_oracle(d, main_path, proj['pool'], proj['receivers'], self_classes)
+    if 'not_a_program' in res:
+        if os.environ.get('C04_DEBUG'):
+            print('not a program', idx, res['not_a_program'], file=sys.stderr)
+        return 0, [], 1
+    oracle = res['ok']
+    project = jedi.Project(d)
+    viol = []
+    n_eval = 0
+    probes = []       # (code, line, col, receiver label, expected names)
+    n_prefix = 2 if tier == 'quick' else 4
+    receivers = proj['receivers']
+    if tier == 'quick' and len(receivers) > 6:      # all (<= 3) module receivers, instances for the rest
+        mods = [r for r in receivers if oracle[r][0] == 'module'][:3]
+        rest = [r for r in receivers if r not in mods]
+        receivers = mods + rnd.sample(rest, min(len(rest), 6 - len(mods)))
+    for expr in receivers:
+        kind, expected = oracle[expr]
+        for frag, fuzzy in fragments_for(rnd, expected, n_prefix):
+            ctx = rnd.choice(['eof', 'eof', 'mid', 'func', 'call', 'assign'])
+            stmt = expr + '.' + frag
+            if ctx == 'eof':
+                code = main_src + stmt
+                line, col = end_pos(code)
+            elif ctx == 'mid':
+                code = main_src + stmt
+                line, col = end_pos(code)
+                code += '\nzq_after = 0\n'
+            elif ctx == 'func':
+                code = main_src + 'def zq_probe():\n    ' + stmt
+                line, col = end_pos(code)
+                code += '\n    return 0\n'
+            elif ctx == 'call':
+                code = main_src + 'zq_r = id(' + stmt
+                line, col = end_pos(code)
+                code += ')\n'
+            else:
+                code = main_src + 'zq_r = [0, ' + stmt
+                line, col = end_pos(code)
+                code += ', 1]\n'
+            probes.append((code, line, col, {'receiver': expr, 'kind': kind, 'ctx': ctx}, expected, frag, fuzzy))
+    lines = main_src.split('\n')
+    points = proj['self_points']
+    if tier == 'quick' and len(points) > 2:
+        points = rnd.sample(points, 2)
+    for at, indent, selfname, cname in points:
+        kind, expected = oracle[cname + '()']
+        for frag, fuzzy in fragments_for(rnd, expected, 1)[:4]:
+            new = lines[:at] + [indent + selfname + '.' + frag] + lines[at:]
+            probes.append(('\n'.join(new), at + 1, len(new[at]),
+                           {'receiver': selfname + ' in a method of ' + cname, 'kind': 'instance', 'ctx': 'method'},
+                           expected, frag, fuzzy))
+    for code, line, col, info, expected, frag, fuzzy in probes:
+        ci = rnd.random() >= 0.15
+        bracket = rnd.random() < 0.1
+        n_eval += 1
+        where = repr(dict(info, fragment=frag, fuzzy=fuzzy, case_insensitive=ci, bracket=bracket,
+                          case='C04-P-%d-%d' % (seed, idx), layout=proj['layout']))
+        comps, exc = jedi_complete(code, line, col, fuzzy, path=main_path, project=project, ci=ci, bracket=bracket)
+        if exc:
+            viol.append({'label': L_RAISED, 'input': where, 'observed': exc, 'kind': 'P:' + info['kind']})
+        if comps is None:
+            continue
+        names = {c[0] for c in comps}
+        want = {n for n in expected if matches(n, frag, fuzzy, ci)}
+        if want - names:
+            missing = sorted(want - names)
+            viol.append({'label': L_MISSING, 'input': where,
+                         'observed': 'missing %r; defined at %s' % (missing, defined_at(proj['files'], missing[:3])),
+                         'kind': 'P:%s:%s' % (info['kind'], info['ctx'] == 'method')})
+        viol += check_completions(comps, frag, fuzzy, ci, where, 'P:algebra')
+    return n_eval, viol, 0
+
+
+# ------------------------------------------------------------------------------------------------ family S
+def classify_positions(src):
+    """[(line, col, fragment, category)] for the cursor positions whose identifier fragment Python's tokenizer
+    determines: inside / at the end of NAME tokens (keywords included), after operators, after white space.
+    Positions in or at the end of strings, numbers and comments and positions after '[' are not enumerated."""
+    toks = list(tokenize.generate_tokens(io.StringIO(src).readline))
+    out = []
+    skip_types = {tokenize.STRING, tokenize.NUMBER, tokenize.COMMENT}
+    depth_fstring = 0
+    stmt_first = None
+    paren = []           # for every open bracket: True when it is a call parenthesis
+    prev = None
+    for i, t in enumerate(toks):
+        tt = t.type
+        name_fs = tokenize.tok_name[tt]
+        if name_fs == 'FSTRING_START':
+            depth_fstring += 1
+        if name_fs == 'FSTRING_END':
+            depth_fstring -= 1
+            prev = t
+            continue
+        if depth_fstring or tt in (tokenize.ENDMARKER, tokenize.INDENT, tokenize.DEDENT):
+            if tt in (tokenize.INDENT,):
+                out.append((t.end[0], t.end[1], '', 'indent'))
+            prev = t if tt != tokenize.DEDENT else prev
+            continue
+        if tt in (tokenize.NEWLINE, tokenize.NL):
+            stmt_first = None if tt == tokenize.NEWLINE else stmt_first
+            prev = t
+            continue
+        if stmt_first is None and tt not in skip_types:
+            stmt_first = t.string
+        where = 'import:' if stmt_first in ('import', 'from') else 'call:' if paren and paren[-1] else ''
+        if t.start[0] != t.end[0]:
+            prev = t
+            continue
+        (l, c0), (_, c1) = t.start, t.end
+        # white space in front of the token
+        if prev is not None and prev.end[0] == l and prev.end[1] < c0 and prev.type not in skip_types \
+                and prev.string != '[':
+            out.append((l, c0, '', where + 'space after ' + ('kw' if keyword.iskeyword(prev.string) else
+                                                             'name' if prev.type == tokenize.NAME else
+                                                             prev.string if prev.string in ',=:' else 'operator')))
+        if tt == tokenize.NAME:
+            kw = 'kw' if keyword.iskeyword(t.string) else 'name'
+            for c in range(c0 + 1, c1 + 1):
+                out.append((l, c, t.string[:c - c0], where + kw + (' end' if c == c1 else ' inside')))
+        elif tt == tokenize.OP:
+            if t.string in '([{':
+                paren.append(t.string == '(' and prev is not None and
+                             (prev.type == tokenize.NAME and not keyword.iskeyword(prev.string) or prev.string in ')]'))
+            elif t.string in ')]}' and paren:
+                paren.pop()
+            if t.string != '[':
+                where2 = 'call:' if paren and paren[-1] else where if where == 'import:' else ''
+                out.append((l, c1, '', where2 + 'after ' + (t.string if t.string in '.(,=:' else 'operator')))
+        prev = t
+    return out
+
+
+ZOO_STMTS = [
+    'import {m}, {m2} as {n}',
+    'from {m} import {a}, {b} as {n}',
+    'from {m}.{m2} import ({a}, {b})',
+    'from . import {m}',
+    'from .{m} import {a} as {n}',
+    '{n} = not {a}',
+    '{n} = {a} if {b} else {c}',
+    '{n} = {a} is not {b} and {c} in {d} or not {a}',
+    'for {n} in {a}:\n    pass\nelse:\n    pass',
+    'while {a}:\n    break',
+    'if {a}:\n    pass\nelif {b}:\n    pass\nelse:\n    pass',
+    'try:\n    pass\nexcept {E} as {n}:\n    raise\nelse:\n    pass\nfinally:\n    pass',
+    'with {f}() as {n}, {f}({a}):\n    pass',
+    'del {d}',
+    'assert {a}, {b}',
+    'def {n}({p}, {q}=1, *{r}, {s}=2, **{t}):\n    global {a}\n    return {p}',
+    'async def {n}({p}):\n    await {f}({p})\n    async with {a} as {q}:\n        pass\n    async for {r} in {b}:\n'
+    '        continue',
+    '{n} = lambda {p}, {q}=1: {p} or {q}',
+    '{n} = [{p} for {p} in {a} if {p}]',
+    '{n} = {{{p}: {q} for {p}, {q} in {a}}}',
+    '{f}({a}, {kw}={b})',
+    '{f}({a}, {kw}={b}, {kw2}={o}.{at})',
+    '{f}(\n    {a},\n    {kw}={b},\n)',
+    '{K}({kw}={a}).{at}',
+    '{o}.{at}',
+    '{o}.{me}({o}.{at}, *{a}, **{b})',
+    '@{f}\n@{o}.{me}({a})\nclass {n}({K}, metaclass={M}):\n    {p}: {K} = {a}\n    def {q}(self, {r}):\n'
+    '        return self.{p}',
+    'print({a}, end={b})',
+    'def {n}():\n    {p} = yield {a}\n    yield from {b}\n    def {q}():\n        nonlocal {p}\n        return {p}',
+    '{n} = ({a}, {b})',
+    '{n} = {a}[{b}:{c}]',
+    'raise {E}({a}) from {b}',
+    '{n}: {K} = {K}()',
+    '{n} += {a} ** -{b}',
+    'if ({n} := {a}) is None: pass',
+    'x = {a}; {n} = {b}',
+    'return_ = {o} .{at}',
+    '{n} = {o}.{at}.{at2}',
+    '{n} = f"{{{a}}} and {{{o}.{at}!r}}"',
+    'pass',
+]
+
+
+def gen_zoo(rnd):
+    g = Names(rnd)
+    V = [g.uniq() for _ in range(6)]
+    for i in range(2):
+        t = g.twin(V[i])
+        if t and t not in g.pool:
+            g.pool.add(t)
+            V.append(t)
+    at = [g.any() for _ in range(4)]
+    me = g.any()
+    kws = [g.any() for _ in range(3)]
+    f, K, M, E, o = (g.uniq(public=True) for _ in range(5))
+    lines = ['%s = 1' % v for v in V]
+    lines += ['def %s(%s=1, %s=2, *zq_a, %s=3, **zq_k):' % (f, kws[0], kws[1], kws[2]), '    return %s' % kws[0], '',
+              'class %s(type): pass' % M, 'class %s(Exception): pass' % E, '',
+              'class %s:' % K,
+              '    %s = 1' % at[0], '    %s = 2' % at[1],
+              '    def __init__(self, %s=1, %s=2):' % (kws[0], kws[1]),
+              '        self.%s = self' % at[2], '        self.%s = 3' % at[3],
+              '    def %s(self, *a, **k): return self' % me, '', '%s = %s()' % (o, K), '']
+    body = []
+    for tmpl in rnd.sample(ZOO_STMTS, rnd.randint(10, 18)):
+        d = dict(m='zqmod', m2='zqsub', f=f, K=K, M=M, E=E, o=o, me=me, at=rnd.choice(at), at2=rnd.choice(at),
+                 kw=kws[0], kw2=rnd.choice(kws[1:]))
+        for key in 'abcd':
+            d[key] = rnd.choice(V)
+        for key in 'npqrst':
+            d[key] = g.any()
+        body.append(tmpl.format(**d))
+    half = len(body) // 2
+    lines += body[:half]
+    lines += ['def zq_fn(%s):' % V[0]] + ['    ' + ln for s in body[half:] for ln in s.split('\n')] + ['    return 1']
+    return '\n'.join(lines) + '\n'
+
+
+def check_case_s(case):
+    import jedi
+    kind, ident, src, path, seed, tier = case
+    rnd = random.Random('C04-S-%d-%s' % (seed, ident))
+    try:
+        positions = classify_positions(src)
+    except (tokenize.TokenError, SyntaxError, IndentationError) as e:
+        if kind == 'corpus':
+            return 0, [], 1
+        raise RuntimeError('generated source does not tokenize: %r\n%s' % (e, src))
+    by_cat = {}
+    for p in positions:
+        by_cat.setdefault(p[3], []).append(p)
+    per_cat = {'quick': 1, 'thorough': 2}[tier]
+    chosen = []
+    for cat in sorted(by_cat):
+        ps = by_cat[cat]
+        chosen += rnd.sample(ps, min(len(ps), per_cat))
+    lines = src.split('\n')
+    project = None
+    if kind == 'corpus':
+        project = _WORK.get('corpus_project')
+        if project is None:
+            project = _WORK['corpus_project'] = jedi.Project(_WORK['repo'])
+    viol = []
+    n_eval = 0
+    for line, col, frag, cat in chosen:
+        combos = [(m, f) for m in ('full', 'cut') for f in (False, True)]
+        if tier == 'quick':
+            combos = rnd.sample(combos, 2)
+        for mode, fuzzy in combos:
+            code = src if mode == 'full' else '\n'.join(lines[:line - 1] + [lines[line - 1][:col]])
+            ci = rnd.random() >= 0.15
+            bracket = kind != 'corpus' and rnd.random() < 0.1
+            n_eval += 1
+            shown = lines[line - 1][:col][-40:] + '|' + (lines[line - 1][col:][:15] if mode == 'full' else '<EOF>')
+            where = repr({'source': '%s %s (seed %d)' % (kind, ident, seed), 'line': line, 'col': col, 'at': shown,
+                          'category': cat, 'mode': mode, 'fuzzy': fuzzy, 'case_insensitive': ci, 'bracket': bracket})
+            comps, exc = jedi_complete(code, line, col, fuzzy, path=path, project=project, ci=ci, bracket=bracket)
+            if exc:
+                if kind == 'corpus' and not _WORK['typeshed']:
+                    # without typeshed the inference of stdlib-using corpus files raises: sandbox artefact
+                    _WORK['artefacts'] = _WORK.get('artefacts', 0) + 1
+                    continue
+                viol.append({'label': L_RAISED, 'input': where, 'observed': exc, 'kind': 'S:' + kind})
+            if comps is None:
+                continue
+            viol += check_completions(comps, frag, fuzzy, ci, where, 'S:%s:%s' % (kind, cat.split(':')[-1]))
+    return n_eval, viol, 0
+
+
+# ------------------------------------------------------------------------------------------------ driver
+_WORK = {}
+
+
+def _init_worker(repo, typeshed):
     import tempfile
     import jedi
-    jedi.settings.cache_directory = tempfile.mkdtemp(prefix='w_', dir=os.environ['STANDIN_TMP'])
+    _WORK['dir'] = tempfile.mkdtemp(prefix='w_', dir=os.environ['STANDIN_TMP'])
+    _WORK['repo'] = repo
+    _WORK['typeshed'] = typeshed
+    jedi.settings.cache_directory = os.path.join(_WORK['dir'], 'cache')
+
+
+def _dispatch(job):
+    fam, case = job
+    before = _WORK.get('artefacts', 0)
+    if fam == 'H':
+        res = check_case_h(case) + (0,)
+    elif fam == 'P':
+        res = check_case_p(case)
+    else:
+        res = check_case_s(case)
+    return (fam,) + res + (_WORK.get('artefacts', 0) - before,)
+
+
+def corpus_files(repo):
+    out = []
+    for base, dirs, files in os.walk(os.path.join(repo, 'jedi')):
+        dirs[:] = sorted(d for d in dirs if d not in ('third_party', '__pycache__'))
+        for f in sorted(files):
+            if f.endswith('.py'):
+                out.append(os.path.join(base, f))
+    return out
 
 
 def run(repo, seed, tier):
-    cases = []
+    quick = tier == 'quick'
+    typeshed = os.path.isdir(os.path.join(repo, 'jedi', 'third_party', 'typeshed', 'stdlib'))
+    jobs = []
+    # H
     for n in (2, 3, 4, 5):
         hs = hierarchies(n)
-        import random
-        rnd = random.Random(1000 + seed + n)      # seeded random samples (a stride is biased on product-ordered lists)
-        if n == 5:
-            hs = rnd.sample(hs, len(hs) // (12 if tier == 'quick' else 2))
-        if n == 4 and tier == 'quick':
-            hs = rnd.sample(hs, len(hs) // 3)
-        for h in hs:
-            for style in (('init', 'setup', 'closure') if n < 5 else ('init',)):
-                cases.append((h, style))
-    with mp.get_context('fork').Pool(min(16, os.cpu_count() or 4), initializer=_init_worker) as pool:
-        results = pool.map(check_case, cases, chunksize=4)
-    evaluations = sum(r[0] for r in results)
-    violations = [v for r in results for v in r[1]]
-    seen = {}
-    for v in violations:
-        seen.setdefault(v['label'], []).append(v)
+        # a hierarchy in which some class is not an ancestor of the receiver's class repeats a smaller hierarchy:
+        # the connected ones are enumerated exhaustively, the others only sampled in the thorough tier
+        conn = [h for h in hs if connected(h)]
+        for h in conn:
+            for style in (('init', 'setup', 'closure') if n < 5 or not quick else ('init',)):
+                jobs.append(('H', (h, style)))
+        if not quick:
+            rest = [h for h in hs if not connected(h)]
+            rnd = random.Random(1000 + seed + n)  # seeded random samples (a stride is biased on product-ordered lists)
+            for h in rnd.sample(rest, len(rest) // 2):
+                jobs.append(('H', (h, 'init')))
+    h_samples = [render(j[1][0], j[1][1]) for j in jobs[:1]]
+    # P
+    n_p = 100 if quick else 800
+    for i in range(n_p):
+        jobs.append(('P', (i, seed, tier, typeshed)))
+    # S
+    n_gen, n_zoo, n_corpus = (16, 30, 6) if quick else (120, 240, 30)
+    rnd = random.Random('C04-S-%d' % seed)
+    for i in range(n_gen):
+        proj = gen_project(random.Random('C04-SG-%d-%d' % (seed, i)), typeshed)
+        rel = rnd.choice(sorted(proj['files']))
+        jobs.append(('S', ('generated', '%d:%s' % (i, rel), proj['files'][rel], None, seed, tier)))
+    zoo_sample = None
+    for i in range(n_zoo):
+        src = gen_zoo(random.Random('C04-SZ-%d-%d' % (seed, i)))
+        zoo_sample = zoo_sample or src
+        jobs.append(('S', ('zoo', str(i), src, None, seed, tier)))
+    files = corpus_files(repo)
+    for path in rnd.sample(files, min(len(files), n_corpus)):
+        with open(path, encoding='utf-8') as f:
+            src = f.read()
+        jobs.append(('S', ('corpus', os.path.relpath(path, repo), src, path, seed, tier)))
+    random.Random('C04-shuffle-%d' % seed).shuffle(jobs)       # balance the load of the workers
+    with mp.get_context('fork').Pool(min(16, os.cpu_count() or 4), initializer=_init_worker,
+                                     initargs=(repo, typeshed)) as pool:
+        results = pool.map(_dispatch, jobs, chunksize=2)
+    evaluations = sum(r[1] for r in results)
+    per_family = {}
+    discarded = 0
+    artefacts = 0
+    for fam, n, v, disc, art in results:
+        per_family[fam] = per_family.get(fam, 0) + n
+        discarded += disc
+        artefacts += art
+    all_viol = [v for r in results for v in r[2]]
+    counts = {}
+    per_kind = {}
+    violations = []
+    for v in all_viol:
+        counts[v['label']] = counts.get(v['label'], 0) + 1
+        k = (v['label'], v.get('kind'))
+        per_kind[k] = per_kind.get(k, 0) + 1
+        if per_kind[k] <= 3 and len(violations) < 60:
+            violations.append({key: val for key, val in v.items() if key != 'kind'})
     return {'name': 'C04.attribute-completeness', 'contract': 'C04.complete',
             'evaluations': evaluations, 'distinct_nontrivial': evaluations,
-            'rule': 'class hierarchies over <= 5 classes, each with 0..2 bases among the earlier ones (all orders; only '
-                    'those Python accepts), each class defining a class attribute, a method and an instance attribute '
+            'rule': 'H: all class hierarchies over <= 5 classes, each with 0..2 bases among the earlier ones (all orders; only '
+                    'those Python accepts) in which every class is an ancestor of the last one (thorough: plus half of the '
+                    'others), each class defining a class attribute, a method and an instance attribute '
                     'assigned in __init__ / in a setup method / in a closure of a method; receiver = instance of the last '
-                    'class; fragments "", "me", "Ca"; oracle = dir() of the executed object',
-            'samples': [render(c[0], c[1]) for c in cases[:2]], 'violations': violations[:300],
-            'violation_counts': {k: len(v) for k, v in seen.items()}}
+                    'class; fragments "", "me", "Ca", fuzzy "tr"; oracle = dir() of the executed object. '
+                    'P: %d seeded random executable projects (1-7 files: flat modules, a package with sub-modules, '
+                    'import / import as / from-import (as) / star imports incl. chains, relative imports, __all__; classes '
+                    'with up to 3 bases, class attributes defined by plain, annotated, tuple, chained, conditional, loop, '
+                    'try assignments, methods, static/class methods, properties, nested classes, self attributes in '
+                    '__init__ (plain, annotated, tuple, for, with, try, closure), in setup methods and nested closures; '
+                    'identifiers with keyword prefixes, case twins, _private, __mangled, __dunder__, non-ASCII); '
+                    'receivers = instances, factory calls, modules, attributes of modules%s, wrapped in (), [..][0], '
+                    'self inside a method; cursor at EOF, mid-file, in a function, in a call, in a list; fragments = "", '
+                    'case-varied prefixes and subsequences of real attribute names, near-miss subsequences; fuzzy and '
+                    'non-fuzzy; case_insensitive_completion and add_bracket_after_function sampled; oracle = hasattr() in '
+                    'a child interpreter that ran the program; project k is gen_project(random.Random("C04-P-<seed>-<k>")). '
+                    'S: cursor sweep over %d generated modules, %d syntax-zoo modules and %d corpus files of the tree: a '
+                    'seeded sample of every category of cursor position (inside/at end of names and keywords, after each '
+                    'operator, after white space, in imports, in call parentheses), whole file and file cut at the cursor, '
+                    'fuzzy and non-fuzzy; oracle for the fragment = tokenize. Every returned list is checked for: match '
+                    'predicate, prefix length, complete == suffix of name_with_symbols (None when fuzzy), unique '
+                    '(name, complete), documented order. evaluations per family: %r; generated programs Python rejects '
+                    '(MRO / metaclass conflict): %d; evaluations not checked because of the empty typeshed: %d'
+                    % (n_p, ', classes' if typeshed else ' (class receivers and exceptions in corpus files are skipped: '
+                       'the typeshed of this tree is empty, ClassMixin.get_filters asserts)', n_gen, n_zoo, n_corpus,
+                       per_family, discarded, artefacts),
+            'samples': h_samples + [zoo_sample], 'violations': violations,
+            'violation_counts': counts}
